@@ -345,6 +345,9 @@ func (pp *PairPos) Sanitize() error {
 			return fmt.Errorf("GPOS: invalid PairPos1 sets count (%d > %d)", exp, got)
 		}
 	} else if f2, isFormat2 := pp.Data.(PairPosData2); isFormat2 {
+		if f2.ClassDef1 == nil || f2.ClassDef2 == nil {
+			return errors.New("GPOS: invalid PairPos2 (missing class definition)")
+		}
 		if exp, got := f2.ClassDef1.Extent(), int(f2.class1Count); exp != got {
 			return fmt.Errorf("GPOS: invalid PairPos2 class1 count (%d != %d)", exp, got)
 		}
@@ -359,6 +362,9 @@ func (mp *MarkBasePos) Sanitize() error {
 	if exp, got := mp.markCoverage.Len(), len(mp.MarkArray.MarkRecords); exp != got {
 		return fmt.Errorf("GPOS: invalid MarkBasePos marks count (%d != %d)", exp, got)
 	}
+	if mp.BaseCoverage == nil {
+		return errors.New("GPOS: invalid MarkBasePos (missing base coverage)")
+	}
 	if exp, got := mp.BaseCoverage.Len(), len(mp.BaseArray.baseRecords); exp != got {
 		return fmt.Errorf("GPOS: invalid MarkBasePos marks count (%d != %d)", exp, got)
 	}
@@ -372,6 +378,9 @@ func (mp *MarkBasePos) Sanitize() error {
 func (mp *MarkLigPos) Sanitize() error {
 	if exp, got := mp.MarkCoverage.Len(), len(mp.MarkArray.MarkAnchors); exp != got {
 		return fmt.Errorf("GPOS: invalid MarkBasePos marks count (%d != %d)", exp, got)
+	}
+	if mp.LigatureCoverage == nil {
+		return errors.New("GPOS: invalid MarkLigPos (missing ligature coverage)")
 	}
 	if exp, got := mp.LigatureCoverage.Len(), len(mp.LigatureArray.LigatureAttachs); exp != got {
 		return fmt.Errorf("GPOS: invalid MarkBasePos marks count (%d != %d)", exp, got)
